@@ -1,1 +1,256 @@
-(* placeholder: to be written *)
+(** C09 — Locking is 1:1 and time-locked; early exit costs exactly the documented penalty.
+    Statements only; the proofs are in Proofs/PenaltyProofs.v, the model in Model/Penalty.v.
+
+    Reading guide.  Token 0 of the model's ledger is the base asset, token e >= 1 the LOCKED nonce
+    whose unlock epoch is e; [tot f L] sums the balances of the (holder, token) class f, [bal L h t]
+    is one balance, [delta f h t a] = a if (h, t) is in f, else 0.  [UNSTAKE] is the token-unstake
+    contract (escrow).  [wf_opts] is exactly what addLockOptions guarantees (first theorem).
+    [is_floor q n d] says q = floor(n / d) by cross-multiplication. *)
+From MX Require Import Base.Prelude Gen.Params Model.Penalty Proofs.PenaltyProofs.
+
+(** ------------------------------------------------------------------ option lists *)
+(** every list addLockOptions stores (from an empty or a valid list, any arguments): non-empty,
+    at most MAX_LOCK_OPTIONS, epochs strictly increasing and >= one year, percentages strictly
+    increasing within [0, MAXP] *)
+Theorem C09_options_accepted_are_wf : forall old new l,
+  old = [] \/ wf_opts old -> add_lock_options old new = Ok l -> wf_opts l.
+Proof. exact add_lock_options_wf. Qed.
+Print Assumptions C09_options_accepted_are_wf.
+
+(** ------------------------------------------------------------------ the penalty function *)
+(** on ANY segment [a, b] of (0,0) :: options that contains the remaining time x, the full-unlock
+    percentage is floor( (p_a*(e_b - x) + p_b*(x - e_a)) / (e_b - e_a) ) *)
+Theorem C09_pen_exact : forall l x a b,
+  wf_opts l -> adj a b ((0, 0) :: l) -> fst a <= x <= fst b ->
+  exists q, pct_full l x = Ok q /\
+            is_floor q (snd a * (fst b - x) + snd b * (x - fst a)) (fst b - fst a).
+Proof. exact pen_exact. Qed.
+Print Assumptions C09_pen_exact.
+
+(** ... and every remaining time up to the longest option lies on such a segment; beyond it the
+    computation is refused *)
+Theorem C09_pen_segment_exists : forall l x, wf_opts l -> 0 <= x <= e_last l ->
+  exists a b, adj a b ((0, 0) :: l) /\ fst a <= x <= fst b.
+Proof. exact pen_segment_exists. Qed.
+Print Assumptions C09_pen_segment_exists.
+
+Theorem C09_pen_fails_beyond_longest_option : forall l x, e_last l < x -> is_ok (pct_full l x) = false.
+Proof. exact pen_fails_beyond. Qed.
+Print Assumptions C09_pen_fails_beyond_longest_option.
+
+(** monotone in the remaining time *)
+Theorem C09_pen_monotone : forall l x y, wf_opts l -> 0 <= x -> x <= y -> y <= e_last l ->
+  exists qx qy, pct_full l x = Ok qx /\ pct_full l y = Ok qy /\ qx <= qy.
+Proof. exact pen_monotone. Qed.
+Print Assumptions C09_pen_monotone.
+
+(** never above the largest option (itself at most 100 %), and strictly below 100 % before the
+    longest option's full period *)
+Theorem C09_pen_bounded : forall l x, wf_opts l -> 0 <= x <= e_last l ->
+  exists q, pct_full l x = Ok q /\ 0 <= q <= p_last l /\ p_last l <= MAXP /\ (x < e_last l -> q < MAXP).
+Proof. exact pen_bounded. Qed.
+Print Assumptions C09_pen_bounded.
+
+(** reduction from [old] to [new] remaining epochs: (p_old - p_new) / (1 - p_new) in basis points —
+    no underflow (p_new <= p_old), divisor positive (p_new < MAXP), result within [0, MAXP] *)
+Theorem C09_pen_partial : forall l old new, wf_opts l -> 0 <= new -> new < old -> old <= e_last l ->
+  exists po pn q, pct_full l old = Ok po /\ pct_full l new = Ok pn /\ 0 <= pn <= po /\ po <= MAXP /\ pn < MAXP /\
+                  pct_partial l old new = Ok q /\ is_floor q ((po - pn) * MAXP) (MAXP - pn) /\ 0 <= q <= MAXP.
+Proof. exact pen_partial. Qed.
+Print Assumptions C09_pen_partial.
+
+(** getPenaltyAmount = floor(amount * pct / MAXP) <= amount, and < amount unless pct = 100 % *)
+Theorem C09_pen_amount : forall l amt prev new pen, wf_opts l -> 0 <= new -> 0 <= amt ->
+  penalty_amount l amt prev new = Ok pen ->
+  exists pct, penalty_pct l prev new = Ok pct /\ 0 <= pct <= MAXP /\
+              is_floor pen (amt * pct) MAXP /\ 0 <= pen <= amt /\ (pct < MAXP -> 0 < amt -> pen < amt).
+Proof. exact pen_amount. Qed.
+Print Assumptions C09_pen_amount.
+
+(** ------------------------------------------------------------------ all histories *)
+(** the invariant holds after every history of operations (any callers, any arguments, any order;
+    a failed transaction changes nothing) from every deployment init accepts *)
+Theorem C09_reach : forall os unbond burn c now funds ops,
+  init_cfg os unbond burn = Ok c -> 0 <= now ->
+  Forall (fun ub => 0 <= snd ub /\ fst ub <> UNSTAKE) funds ->
+  Inv (funds_total funds) (run (init_state c now funds) ops).
+Proof. intros. apply run_inv. eapply init_inv; eauto. Qed.
+Print Assumptions C09_reach.
+
+Theorem C09_step : forall b0 s op s' o, Inv b0 s -> step s op = Ok (s', o) -> Inv b0 s'.
+Proof. exact step_inv. Qed.
+Print Assumptions C09_step.
+
+(** supply ledger: base asset minted by the unlock paths never exceeds base asset burned by the
+    lock paths plus LOCKED emitted by lockVirtual; the base-asset supply never exceeds the initial
+    supply plus that emission *)
+Theorem C09_supply : forall b0 s, Inv b0 s ->
+  g_bmint (l_g s) <= g_bburn_lock (l_g s) + g_bburn_cancel (l_g s) + g_emit (l_g s) /\
+  base_supply s <= b0 + g_emit (l_g s).
+Proof. exact supply_ledger. Qed.
+Print Assumptions C09_supply.
+
+(** escrow: the unstake contract holds exactly the base asset and the LOCKED tokens its queues record,
+    and every entry releases a positive amount not above what was locked *)
+Theorem C09_escrow_backed : forall b0 s, Inv b0 s ->
+  bal (l_led s) UNSTAKE 0 = qsum en_un (l_q s) /\
+  (forall e, 0 < e -> bal (l_led s) UNSTAKE e = qsum (lk_at e) (l_q s)) /\
+  Forall (fun en => 0 < en_un en <= en_lk en) (l_q s).
+Proof. exact escrow_backed. Qed.
+Print Assumptions C09_escrow_backed.
+
+(** ------------------------------------------------------------------ lock / unlock *)
+Theorem C09_lock_1to1 : forall s c amt le dest s' o, ep_lock s c amt le dest = Ok (s', o) ->
+  exists unlock,
+    unlock = start_of_month (l_now s + le) /\ is_listed (opts s) le = true /\
+    l_now s < unlock <= l_now s + le /\ l_now s + le < unlock + EPOCHS_PER_MONTH /\ unlock mod EPOCHS_PER_MONTH = 0 /\
+    0 < amt /\ o = [unlock; amt] /\
+    (forall f, tot f (l_led s') = tot f (l_led s) - delta f c 0 amt + delta f dest unlock amt) /\
+    g_bburn_lock (l_g s') = g_bburn_lock (l_g s) + amt /\ g_lmint (l_g s') = g_lmint (l_g s) + amt /\
+    g_bmint (l_g s') = g_bmint (l_g s) /\ g_lburn (l_g s') = g_lburn (l_g s) /\
+    l_q s' = l_q s /\ l_fees s' = l_fees s.
+Proof. exact lock_char. Qed.
+Print Assumptions C09_lock_1to1.
+
+Theorem C09_unlock_1to1 : forall s c ps s' o, ep_unlock s c ps = Ok (s', o) ->
+  c <> UNSTAKE /\ paused s = false /\ ps <> [] /\
+  Forall (fun p => 0 < fst p <= l_now s /\ 0 < snd p) ps /\
+  o = [pay_total ps] /\
+  (forall f, tot f (l_led s') = tot f (l_led s) + pay_delta f c ps) /\
+  g_bmint (l_g s') = g_bmint (l_g s) + pay_total ps /\ g_lburn (l_g s') = g_lburn (l_g s) + pay_total ps /\
+  same_frame s s'.
+Proof. exact unlock_char. Qed.
+Print Assumptions C09_unlock_1to1.
+
+Theorem C09_unlock_guard : forall s c ps e amt, In (e, amt) ps -> l_now s < e -> is_ok (ep_unlock s c ps) = false.
+Proof. exact unlock_guard. Qed.
+Print Assumptions C09_unlock_guard.
+
+Theorem C09_unlock_live : forall b0 s c e amt, Inv b0 s -> c <> UNSTAKE -> paused s = false ->
+  0 < e <= l_now s -> 0 < amt <= bal (l_led s) c e ->
+  exists s', ep_unlock s c [(e, amt)] = Ok (s', [amt]) /\ bal (l_led s') c 0 = bal (l_led s) c 0 + amt.
+Proof. exact unlock_live. Qed.
+Print Assumptions C09_unlock_live.
+
+(** before its unlock epoch a user's LOCKED position shrinks only through unlockEarly /
+    reduceLockPeriod (the penalty paths) or a 1:1 re-lock for longer *)
+Theorem C09_early_exit_only_by_penalty : forall b0 s op s' o h e,
+  Inv b0 s -> step s op = Ok (s', o) -> h <> UNSTAKE -> l_now s < e ->
+  bal (l_led s') h e < bal (l_led s) h e ->
+  exists amt, op = UnlockEarly h e amt \/ (exists le, op = Reduce h e amt le) \/ (exists le, op = Extend h e amt le).
+Proof. exact early_exit_only_by_penalty. Qed.
+Print Assumptions C09_early_exit_only_by_penalty.
+
+(** base asset reaches a user only through unlockTokens (after the unlock epoch) or
+    claimUnlockedTokens (after the unbond period) *)
+Theorem C09_base_credit_only_by_unlock_or_claim : forall b0 s op s' o h,
+  Inv b0 s -> step s op = Ok (s', o) -> h <> UNSTAKE ->
+  bal (l_led s) h 0 < bal (l_led s') h 0 ->
+  (exists ps, op = Unlock h ps) \/ op = Claim h.
+Proof. exact base_credit_only_by_unlock_or_claim. Qed.
+Print Assumptions C09_base_credit_only_by_unlock_or_claim.
+
+(** ------------------------------------------------------------------ the penalty paths *)
+Theorem C09_unlock_early : forall b0 s c e amt s' o, Inv b0 s -> ep_unlock_early s c e amt = Ok (s', o) ->
+  exists pct pen,
+    c <> UNSTAKE /\ l_now s < e /\ 0 < amt /\
+    pct_full (opts s) (e - l_now s) = Ok pct /\ 0 <= pct <= MAXP /\
+    is_floor pen (amt * pct) MAXP /\ 0 <= pen < amt /\
+    o = [] /\
+    l_q s' = l_q s ++ [mkE c (l_now s + c_unbond (l_cfg s)) e amt (amt - pen)] /\
+    (forall f, tot f (l_led s') = tot f (l_led s) - delta f c e amt + delta f UNSTAKE e amt + delta f UNSTAKE 0 (amt - pen)) /\
+    bal (l_led s') c 0 = bal (l_led s) c 0 /\
+    g_bmint (l_g s') = g_bmint (l_g s) + (amt - pen) /\ g_lburn (l_g s') = g_lburn (l_g s) /\
+    g_lmint (l_g s') = g_lmint (l_g s) /\ l_fees s' = l_fees s /\ l_cfg s' = l_cfg s /\ l_now s' = l_now s.
+Proof. exact unlock_early_char. Qed.
+Print Assumptions C09_unlock_early.
+
+Theorem C09_reduce : forall b0 s c e amt le s' o, Inv b0 s -> ep_reduce s c e amt le = Ok (s', o) ->
+  exists nu po pn pct pen b,
+    c <> UNSTAKE /\ is_listed (opts s) le = true /\ 0 < amt /\
+    nu = start_of_month (l_now s + le) /\ l_now s < nu < e /\
+    pct_full (opts s) (e - l_now s) = Ok po /\ pct_full (opts s) (nu - l_now s) = Ok pn /\
+    0 <= pn <= po /\ po <= MAXP /\ pn < MAXP /\
+    is_floor pct ((po - pn) * MAXP) (MAXP - pn) /\ 0 <= pct <= MAXP /\
+    is_floor pen (amt * pct) MAXP /\ 0 <= pen < amt /\
+    is_floor b (pen * c_burn (l_cfg s)) MAXPU /\ 0 <= b <= pen /\
+    l_fees s' = l_fees s + (pen - b) /\ g_penburn (l_g s') = g_penburn (l_g s) + b /\
+    o = [nu; amt - pen] /\
+    (forall f, tot f (l_led s') = tot f (l_led s) - delta f c e amt + delta f c nu (amt - pen)) /\
+    g_bmint (l_g s') = g_bmint (l_g s) /\ g_lmint (l_g s') = g_lmint (l_g s) + (amt - pen) /\
+    g_lburn (l_g s') = g_lburn (l_g s) + amt /\ l_q s' = l_q s /\ l_cfg s' = l_cfg s /\ l_now s' = l_now s.
+Proof. exact reduce_char. Qed.
+Print Assumptions C09_reduce.
+
+(** the split of a penalty: floor(pen * burn% / MAXPU) burned, the rest to the fees collector *)
+Theorem C09_split : forall burn pen b rest, split_penalty burn pen = Ok (b, rest) -> 0 <= burn <= MAXPU -> 0 <= pen ->
+  is_floor b (pen * burn) MAXPU /\ rest = pen - b /\ 0 <= b <= pen /\ 0 <= rest.
+Proof. exact split_char. Qed.
+Print Assumptions C09_split.
+
+(** ------------------------------------------------------------------ unbond queue *)
+(** claimUnlockedTokens pays exactly the entries [claimable] selects: from the front of the caller's
+    queue, at most MAX_CLAIM_UNLOCKED_TOKENS, only those whose unbond period has ended; each paid
+    entry leaves the queue (single payout) *)
+Theorem C09_claim : forall b0 s c s' o, Inv b0 s -> ep_claim s c = Ok (s', o) ->
+  let paid := claimable (Z.to_nat MAX_CLAIM_UNLOCKED_TOKENS) (l_now s) (view_queue s c) in
+  let burn := c_burn (l_cfg s) in
+  c <> UNSTAKE /\ paid <> [] /\
+  paid = firstn (length paid) (view_queue s c) /\
+  Forall (fun en => en_release en <= l_now s) paid /\
+  o = map en_un paid /\
+  view_queue s' c = skipn (length paid) (view_queue s c) /\
+  (forall u, u <> c -> view_queue s' u = view_queue s u) /\
+  (forall f, tot f (l_led s') = tot f (l_led s) + qsum (pay_entry f c) paid) /\
+  l_fees s' = l_fees s + qsum (fun en => pen_of en - burn_of burn en) paid /\
+  g_penburn (l_g s') = g_penburn (l_g s) + qsum (burn_of burn) paid /\
+  g_lburn (l_g s') = g_lburn (l_g s) + qsum en_lk paid /\
+  claim_frame s s'.
+Proof. exact claim_char. Qed.
+Print Assumptions C09_claim.
+
+Theorem C09_claim_too_early : forall s c en t, view_queue s c = en :: t -> l_now s < en_release en ->
+  is_ok (ep_claim s c) = false.
+Proof. exact claim_too_early. Qed.
+Print Assumptions C09_claim_too_early.
+
+Theorem C09_cancel : forall b0 s c s' o, Inv b0 s -> ep_cancel s c = Ok (s', o) ->
+  let mine := view_queue s c in
+  c <> UNSTAKE /\ paused s = false /\ mine <> [] /\
+  o = flat_map (fun en => [en_epoch en; en_lk en]) mine /\
+  view_queue s' c = [] /\
+  (forall u, u <> c -> view_queue s' u = view_queue s u) /\
+  (forall f, tot f (l_led s') = tot f (l_led s) + qsum (cancel_entry f c) mine) /\
+  g_bburn_cancel (l_g s') = g_bburn_cancel (l_g s) + qsum en_un mine /\
+  g_bmint (l_g s') = g_bmint (l_g s) /\ g_lburn (l_g s') = g_lburn (l_g s) /\ g_lmint (l_g s') = g_lmint (l_g s) /\
+  l_fees s' = l_fees s /\ l_cfg s' = l_cfg s /\ l_now s' = l_now s.
+Proof. exact cancel_char. Qed.
+Print Assumptions C09_cancel.
+
+(** ------------------------------------------------------------------ non-vacuity
+    The deployment of the repository's own token-unstake tests (options 1/2/4 years at 40/60/80 %,
+    unbond 10, burn 50 %), a history through every endpoint; the numbers are the ones the real
+    contracts produce for it (61 released for 100 unlocked early at 355 remaining epochs; 34 LOCKED
+    left of 100 reduced from 1425 to 345 remaining epochs; 20 then 53 accumulated fees). *)
+Definition c09_example_ops : list lop :=
+  [Lock 1 1000 360 1; UnlockEarly 1 360 100; Claim 1; Advance 10; Claim 1; Lock 1 1000 1440 1;
+   Reduce 1 1440 100 360; UnlockEarly 1 1440 100; Cancel 1; LockVirtual WLSC 7 720 2; Extend 1 360 50 720;
+   SetBurn OWNER 3333; AddOptions OWNER [(1000, 7000)]; Advance 345; Unlock 1 [(360, 884)]; UnlockEarly 2 720 7;
+   Advance 10; Claim 2].
+
+Example C09_nonvacuous :
+  match init_cfg [(1440, 8000); (360, 4000); (720, 6000)] 10 5000 with
+  | Err _ => False
+  | Ok c =>
+      let s0 := init_state c 5 [(1, 1000000); (2, 1000000)] in
+      let s := run s0 c09_example_ops in
+      forallb (fun k => Bool.eqb (is_ok (step (run s0 (firstn k c09_example_ops)) (nth k c09_example_ops (Advance 0))))
+                                 (negb (k =? 2)%nat)) (seq 0 18) = true /\
+      bal (l_led (run s0 (firstn 5 c09_example_ops))) 1 0 = 1000000 - 1000 + 61 /\
+      l_fees (run s0 (firstn 5 c09_example_ops)) = 20 /\
+      bal (l_led (run s0 (firstn 7 c09_example_ops))) 1 360 = 900 + 34 /\
+      l_fees (run s0 (firstn 7 c09_example_ops)) = 53 /\
+      l_q s = [] /\ 0 < l_fees s /\ 0 < g_penburn (l_g s) /\
+      g_bmint (l_g s) <= g_bburn_lock (l_g s) + g_bburn_cancel (l_g s) + g_emit (l_g s)
+  end.
+Proof. vm_compute. repeat split; discriminate. Qed.
